@@ -562,3 +562,204 @@ Section Day1.
     rewrite ER. reflexivity.
   Qed.
 End Day1.
+
+(* ============================================================================================================ *)
+(*  Examples: the hypotheses of the main theorems are satisfiable on a concrete, non-trivial instance             *)
+(* ============================================================================================================ *)
+Module Ex.
+Definition zeroS : DState R :=
+  {| d_age_days := 0;
+     d_age_days_ns := 0;
+     d_aer_days := 0;
+     d_aer_days_comp := [];
+     d_irr_cum := 0;
+     d_delayed_gdds := 0;
+     d_delayed_cds := 0%Z;
+     d_pct_lag_phase := 0;
+     d_t_early_sen := 0;
+     d_gdd_cum := 0;
+     d_day_submerged := 0;
+     d_irr_net_cum := 0;
+     d_e_pot := 0;
+     d_t_pot := 0;
+     d_pre_adj := false;
+     d_crop_dead := false;
+     d_germination := false;
+     d_premat_senes := false;
+     d_growing_season := false;
+     d_yield_form := false;
+     d_stage2 := false;
+     d_wt_in_soil := None;
+     d_stage := 0;
+     d_f_pre := 0;
+     d_f_post := 0;
+     d_fpost_dwn := 0;
+     d_fpost_upp := 0;
+     d_h1_cor_asum := 0;
+     d_h1_cor_bsum := 0;
+     d_f_pol := 0;
+     d_s_cor1 := 0;
+     d_s_cor2 := 0;
+     d_hi_ref := 0;
+     d_HIfinal := 0;
+     d_growth_stage := 0%Z;
+     d_tr_ratio := 0;
+     d_r_cor := 0;
+     d_canopy_cover := 0;
+     d_canopy_cover_adj := 0;
+     d_canopy_cover_ns := 0;
+     d_canopy_cover_adj_ns := 0;
+     d_biomass := 0;
+     d_biomass_ns := 0;
+     d_YieldPot := 0;
+     d_harvest_index := 0;
+     d_harvest_index_adj := 0;
+     d_ccx_act := 0;
+     d_ccx_act_ns := 0;
+     d_ccx_w := 0;
+     d_ccx_w_ns := 0;
+     d_ccx_early_sen := 0;
+     d_cc_prev := 0;
+     d_protected_seed := false;
+     d_DryYield := 0;
+     d_FreshYield := 0;
+     d_z_root := 0;
+     d_cc0_adj := 0;
+     d_surface_storage := 2;
+     d_z_gw := None;
+     d_th_fc_Adj := [3/10];
+     d_th := [3/10];
+     d_thini := [3/10];
+     d_time_step_counter := 0%Z;
+     d_precipitation := 0;
+     d_temp_max := 0;
+     d_temp_min := 0;
+     d_et0 := 0;
+     d_sumET0EarlySen := 0;
+     d_gdd := 0;
+     d_w_surf := 0;
+     d_evap_z := 0;
+     d_w_stage_2 := 0;
+     d_depletion := 0;
+     d_taw := 0 |}.
+Definition z_gd : R_gd R := {| gdR_gdd := 0 |}.
+Definition z_gw : R_gw R := {| gwR_fcadj := []; gwR_wtsoil := None; gwR_zgw := None |}.
+Definition z_rd : R_rd R := {| rdR_zroot := 0; rdR_rcor := 0 |}.
+Definition z_pi : R_pi R := {| piR_th := []; piR_preirr := 0 |}.
+Definition z_dr : R_dr R := {| drR_th := []; drR_deepperc := 0; drR_flux := [] |}.
+Definition z_rp : R_rp R := {| rpR_runoff := 0; rpR_infl := 0; rpR_daysub := 0 |}.
+Definition z_ir : R_ir R := {| irR_depletion := 0; irR_taw := 0; irR_irrcum := 0; irR_irr := 0 |}.
+Definition z_inf : R_inf R := {| infR_th := []; infR_surf := 0; infR_deepperc := 0; infR_runoff := 0; infR_infl := 0; infR_flux := [] |}.
+Definition z_cr : R_cr R := {| crR_th := []; crR_cr := 0 |}.
+Definition z_ge : R_ge R := {| geR_germ := false; geR_prot := false; geR_dcd := 0%Z; geR_dgdd := 0 |}.
+Definition z_gst : R_gst := {| gstR_stage := 0%Z |}.
+Definition z_cc : R_cc R := {| ccR_cc := 0; ccR_cc_prev := 0; ccR_cc_ns := 0; ccR_cc_adj := 0; ccR_cc_adj_ns := 0; ccR_ccx_act := 0; ccR_ccx_act_ns := 0; ccR_ccx_w := 0; ccR_ccx_w_ns := 0; ccR_cc0_adj := 0; ccR_ccx_early_sen := 0; ccR_t_early_sen := 0; ccR_prot := false; ccR_premat := false; ccR_dead := false |}.
+Definition z_ev : R_ev R := {| evR_epot := 0; evR_th := []; evR_stage2 := false; evR_wstage2 := 0; evR_wsurf := 0; evR_surf := 0; evR_evapz := 0; evR_es := 0; evR_espot := 0 |}.
+Definition z_tr : R_tr R := {| trR_tr := 0; trR_trpot_ns := 0; trR_trpot := 0; trR_irrnet := 0; trR_age_days_ns := 0; trR_age_days := 0; trR_cc := 0; trR_surf := 0; trR_day_sub := 0; trR_aer_comp := []; trR_th := []; trR_aer_days := 0; trR_irr_net_cum := 0; trR_depletion := 0; trR_taw := 0; trR_tr_ratio := 0; trR_t_pot := 0 |}.
+Definition z_gi : R_gi R := {| giR_th := []; giR_gwin := 0 |}.
+Definition z_hr : R_hr R := {| hrR_hiref := 0; hrR_yf := false; hrR_pct := 0 |}.
+Definition z_bm : R_bm R := {| bmR_b := 0; bmR_bns := 0 |}.
+Definition z_hi : R_hi R := {| hiR_hi := 0; hiR_hiadj := 0; hiR_preadj := false; hiR_fpre := 0; hiR_fpol := 0; hiR_scor1 := 0; hiR_scor2 := 0; hiR_upp := 0; hiR_dwn := 0; hiR_fpost := 0 |}.
+Definition z_rz : R_rz R := {| rzR_wr := 0; rzR_drzt := 0; rzR_drrz := 0; rzR_tawzt := 0; rzR_tawrz := 0 |}.
+Definition comp0 : Comp R :=
+  {| c_dz := 1 / 10; c_dzsum := 1 / 10; c_zmid := 5 / 100; c_layer := 1; c_th_dry := 5 / 100; c_th_wp := 1 / 10; c_th_fc := 3 / 10;
+     c_th_s := 5 / 10; c_ksat := 500; c_tau := 1 / 2; c_pen := 100; c_acr := 0; c_bcr := 0 |}.
+Definition crop0 : DCrop R :=
+  {| c_id := 0; c_GDDmethod := 3; c_Tupp := 30; c_Tbase := 8; c_GermThr := 2 / 10; c_PlantMethod := 1; c_CalendarType := 1;
+     c_Senescence := 100; c_YldWC := 15; c_Maturity := 120; c_Zmin := 3 / 10; c_Aer := 5; c_CC0 := 1 / 100; c_HI0 := 48 / 100 |}.
+Definition irr0 : DIrr R :=
+  {| i_id := 0; i_method := 4; i_SMT := [70; 70; 70; 70]; i_AppEff := 100; i_MaxIrr := 25; i_IrrInterval := 3; i_Schedule := [];
+     i_depth := 0; i_MaxIrrSeason := 10000; i_NetIrrSMT := 80; i_WetSurf := 100 |}.
+Definition field0 : DField R :=
+  {| f_id := 0; f_sr_inhb := false; f_bunds := true; f_z_bund := 10; f_cn_adj := false; f_cn_adj_pct := 0; f_mulches := false;
+     f_f_mulch := 0; f_mulch_pct := 0; f_bund_water := 0 |}.
+Definition soil0 : DSoil R :=
+  {| so_cn := 61; so_adj_cn := 1; so_z_cn := 3 / 10; so_nComp := 1; so_z_top := 1 / 10; so_nLayer := 1; so_fshape_cr := 16;
+     so_z_germ := 3 / 10; so_evap_z_min := 15 / 100; so_evap_z_max := 3 / 10; so_rew := 9; so_kex := 11 / 10; so_fwcc := 50;
+     so_f_wrel_exp := 4 / 10; so_f_evap := 4; so_prof := [comp0] |}.
+Definition par0 : DPar R :=
+  {| p_soil := soil0; p_irr := irr0; p_fallow_irr := irr0; p_field := field0; p_fallow_field := field0; p_crop := fun _ => crop0;
+     p_fallow_crop := crop0; p_water_table := 0; p_co2c := fun _ => 400; p_co2r := 36941 / 100; p_evap_steps := 20; p_sim_off := false |}.
+Definition w0 : Day.W R := {| w_rain := 5; w_tmax := 25; w_tmin := 12; w_et0 := 4; w_gw := 0 |}.
+
+(* toy processes: rain and irrigation pond on the surface, the pond evaporates completely, net irrigation adds 1 mm to
+   the single compartment, pre-irrigation 2 mm; everything else passes its inputs through *)
+Definition P0 : Procs R :=
+  {| p_gd := fun _ => {| gdR_gdd := 10 |};
+     p_gw := fun _ a => {| gwR_fcadj := gwA_fcadj a; gwR_wtsoil := None; gwR_zgw := None |};
+     p_rd := fun _ a => {| rdR_zroot := 3 / 10; rdR_rcor := 1 |};
+     p_pi := fun _ a => {| piR_th := map (fun t => t + 2 / 100) (piA_th a); piR_preirr := 2 |};
+     p_dr := fun _ a => {| drR_th := drA_th a; drR_deepperc := 0; drR_flux := [] |};
+     p_rp := fun _ a => {| rpR_runoff := 0; rpR_infl := rpA_rain a; rpR_daysub := rpA_daysub a |};
+     p_ir := fun _ a => {| irR_depletion := 0; irR_taw := 0; irR_irrcum := irA_irrcum a; irR_irr := 0 |};
+     p_inf := fun _ a => {| infR_th := infA_th a; infR_surf := infA_surf a + offered a; infR_deepperc := infA_deepperc a;
+                            infR_runoff := infA_runoff a; infR_infl := offered a; infR_flux := infA_flux a |};
+     p_cr := fun _ a => {| crR_th := crA_th a; crR_cr := 0 |};
+     p_ge := fun _ a => {| geR_germ := true; geR_prot := geA_prot a; geR_dcd := 0; geR_dgdd := geA_dgdd a |};
+     p_gst := fun _ => {| gstR_stage := 1 |};
+     p_cc := fun _ a => {| ccR_cc := ccA_cc a; ccR_cc_prev := ccA_cc a; ccR_cc_ns := ccA_cc_ns a; ccR_cc_adj := ccA_cc_adj a;
+                           ccR_cc_adj_ns := ccA_cc_adj_ns a; ccR_ccx_act := ccA_ccx_act a; ccR_ccx_act_ns := ccA_ccx_act_ns a;
+                           ccR_ccx_w := ccA_ccx_w a; ccR_ccx_w_ns := ccA_ccx_w_ns a; ccR_cc0_adj := ccA_cc0_adj a;
+                           ccR_ccx_early_sen := ccA_ccx_early_sen a; ccR_t_early_sen := ccA_t_early_sen a; ccR_prot := ccA_prot a;
+                           ccR_premat := ccA_premat a; ccR_dead := ccA_dead a |};
+     p_ev := fun _ a => {| evR_epot := 4; evR_th := evA_th a; evR_stage2 := false; evR_wstage2 := 0; evR_wsurf := 0; evR_surf := 0;
+                           evR_evapz := 15 / 100; evR_es := evA_surf a; evR_espot := 4 |};
+     p_tr := fun _ a => {| trR_tr := 0; trR_trpot_ns := 0; trR_trpot := 0; trR_irrnet := 1; trR_age_days_ns := trA_age_days_ns a;
+                           trR_age_days := trA_age_days a; trR_cc := trA_cc a; trR_surf := trA_surf a; trR_day_sub := trA_day_sub a;
+                           trR_aer_comp := trA_aer_comp a; trR_th := map (fun t => t + 1 / 100) (trA_th a); trR_aer_days := trA_aer_days a;
+                           trR_irr_net_cum := trA_irr_net_cum a + 1; trR_depletion := trA_depletion a; trR_taw := trA_taw a;
+                           trR_tr_ratio := 1; trR_t_pot := 0 |};
+     p_gi := fun _ a => {| giR_th := giA_th a; giR_gwin := 0 |};
+     p_hr := fun a => {| hrR_hiref := 0; hrR_yf := false; hrR_pct := 0 |};
+     p_bm := fun a => {| bmR_b := bmA_b a + 12; bmR_bns := bmA_bns a + 15 |};
+     p_hi := fun _ a => {| hiR_hi := 3 / 10; hiR_hiadj := 1 / 4; hiR_preadj := hiA_preadj a; hiR_fpre := hiA_fpre a; hiR_fpol := hiA_fpol a;
+                           hiR_scor1 := hiA_scor1 a; hiR_scor2 := hiA_scor2 a; hiR_upp := hiA_upp a; hiR_dwn := hiA_dwn a;
+                           hiR_fpost := hiA_fpost a |};
+     p_rz := fun _ a => z_rz |}.
+
+Example balance_hypotheses_satisfiable : CallsBalance par0 P0 0 true 1 0 w0 zeroS.
+Proof.
+  constructor; cbn; rnum; unfold offered; cbn; rnum; try lra.
+  - intros [H|H]; [discriminate | exfalso; apply H; reflexivity].
+  - unfold Rmax. destruct (Rle_dec 5 0); lra.
+  - unfold Rmax. destruct (Rle_dec 5 0); lra.
+  - intros [H|H]; [discriminate | exfalso; apply H; reflexivity].
+Qed.
+
+(* ... and the conclusion on it: +5 mm rain ponded, 7 mm evaporated from the pond, 3 mm net irrigation incl. pre-irrigation *)
+Example day_balance_example :
+  let o := day_core par0 P0 0 true 1 0 w0 zeroS in
+  storage [comp0] (d_th (o_state o)) + d_surface_storage (o_state o) - (storage [comp0] (d_th zeroS) + d_surface_storage zeroS) = 5 + 3 - 7
+  /\ fl_Infl (r_flux (o_row o)) = 5 /\ fl_IrrDay (r_flux (o_row o)) = 3 /\ fl_Es (r_flux (o_row o)) = 7.
+Proof.
+  cbn. rnum. unfold offered, Rmax; cbn. destruct (Rle_dec 5 0); [lra|]. repeat split; lra.
+Qed.
+
+Example bounds_hypotheses_satisfiable :
+  CallsBounds par0 P0 0 true 1 0 w0 zeroS 10 /\ in_bounds [comp0] (d_th zeroS) /\ surf_ok 10 (d_surface_storage zeroS).
+Proof.
+  assert (B : forall v, 5 / 100 <= v <= 5 / 10 -> in_bounds [comp0] [v]) by (intros v Hv; repeat constructor; cbn; lra).
+  split; [|split; [apply B; cbn; lra | unfold surf_ok; cbn; lra]].
+  constructor; cbn; rnum; unfold surf_ok, offered, Rmax; cbn; try (destruct (Rle_dec 5 0)); intros;
+    repeat split; try (apply B); try assumption; rnum; try lra.
+Qed.
+
+Example day1_hypotheses_satisfiable :
+  (forall a z, p_gw P0 [comp0] (gw_with a z) = p_gw P0 [comp0] a) /\
+  (forall a z, rdA_dap a = 1%Z -> rdA_gs a = true -> p_rd P0 [comp0] (rd_with a z) = p_rd P0 [comp0] a) /\
+  (forall a ws ez s2 w2, evA_dap a = 1%Z -> evA_simoff a = false -> p_ev P0 [comp0] (ev_with a ws ez s2 w2) = p_ev P0 [comp0] a) /\
+  (forall a h y, hrA_dap a = 1%Z -> hrA_gs a = true -> (0 <= hrA_dcd a)%Z -> p_hr P0 (hr_with a h y) = p_hr P0 a) /\
+  p_sim_off par0 = false /\ (0 <= geR_dcd (rs_ge (results (ctx par0 0 true 1 0 w0 zeroS) P0)))%Z.
+Proof. repeat split; try reflexivity. cbn. lia. Qed.
+End Ex.
+
+Print Assumptions yield_identities.
+Print Assumptions summary_values.
+Print Assumptions row_wiring.
+Print Assumptions off_season_wiring.
+Print Assumptions day_balance.
+Print Assumptions day_bounds.
+Print Assumptions reset_frame.
+Print Assumptions reset_fields_match.
+Print Assumptions day1_dead.
+Print Assumptions day_step_summary.
